@@ -51,7 +51,8 @@ def input_resource(draw, name, sizes=(0, 1, 2, 3, 5), types=None):
     for i, r in enumerate(rows):
         r['id'] = i + 1
         r['g'] = draw(st.integers(1, 3)) if k <= 12 else (i % 3) + 1
-    rows = [dict([(f['name'], r[f['name']]) for f in flds]) for r in rows]
+    # '' in a string field IS null under the schema's missingValues ['']: typed inputs use None, never ''
+    rows = [dict([(f['name'], (None if r[f['name']] == '' else r[f['name']])) for f in flds]) for r in rows]
     return {'name': name, 'fields': flds, 'rows': rows}
 
 
@@ -302,7 +303,8 @@ def build(spec, env):
         return d.load(p, name=spec['name'], encoding='utf-8', **copy.deepcopy(spec.get('options', {})))
     if k == 'printer':
         cap = env.cap('printer')
-        return d.printer(num_rows=spec.get('num_rows', 2), header_print=lambda h, kw: cap.append(('header', h)),
+        return d.printer(num_rows=spec.get('num_rows', 2), fields=spec.get('fields'),
+                         header_print=lambda h, kw: cap.append(('header', h)),
                          table_print=lambda t, kw: cap.append(('table', t)))
     if k == 'dump_to_path':
         p = env.path('dump')
